@@ -156,7 +156,7 @@ fn sha_order_independent<T: Sig + Debug + Clone + Eq + std::hash::Hash>(keys: &[
 
 /// child: vector types.  Prints one line per finding and a final DONE line.
 fn child_vectors(which: &str, maxlen: usize, with_long: bool) -> i32 {
-    let long: Vec<usize> = if with_long { vec![1000, 1_000_000] } else { vec![17] };
+    let long: Vec<usize> = if with_long { vec![255, 256, 257, 1000, 65_535, 65_536, 65_537, 1_000_000] } else { vec![17] };
     let mut n = 0u64;
     if which == "vec8" || which == "all" {
         let vs = all_vectors(&vec_alphabet_u8(), maxlen, &long);
@@ -441,7 +441,7 @@ pub fn run(ctx: &Ctx) -> i32 {
         let v = judge_child(&out);
         evals += v.n;
         distinct += v.n;
-        parts.push(json!({"types": which, "mode": "native sub-process", "vectors": v.n, "max_len_exhaustive": maxlen, "long": [1000, 1000000], "crashed": v.crashed}));
+        parts.push(json!({"types": which, "mode": "native sub-process", "vectors": v.n, "max_len_exhaustive": maxlen, "long": [255, 256, 257, 1000, 65535, 65536, 65537, 1000000], "crashed": v.crashed}));
         let tname = match which {
             "vec8" => "Vec<u8>",
             "vec16" => "Vec<u16>",
@@ -535,7 +535,7 @@ pub fn run(ctx: &Ctx) -> i32 {
     let coverage = json!({
         "evaluations": evals,
         "distinct_nontrivial": distinct,
-        "rule": "every value of u8/u16/i16 (and of u32/i32 in the thorough tier; quick: all values with <=2 non-zero bytes and 1-2 bit patterns), a 2e5 pattern alphabet of u64, all strings of <=4 pieces over {empty,a,é,U+10348,NUL} plus long ones, every Vec<u8|u16|u32> of length 0..5 (6) over a 5-value boundary alphabet plus lengths 1000 and 1e6, each also rebuilt with spare capacity (larger allocation; re-filled after clear()); oracle = independent native-endian concatenation; vectors run in sub-processes (abort = observation), the small sweep is repeated under valgrind memcheck and under miri (which also checks allocation layouts on free); distinct = distinct values",
+        "rule": "every value of u8/u16/i16 (and of u32/i32 in the thorough tier; quick: all values with <=2 non-zero bytes and 1-2 bit patterns), a 2e5 pattern alphabet of u64, all strings of <=4 pieces over {empty,a,é,U+10348,NUL} plus long ones, every Vec<u8|u16|u32> of length 0..5 (6) over a 5-value boundary alphabet plus lengths 255, 256, 257, 1000, 65535, 65536, 65537 and 1e6, each also rebuilt with spare capacity (larger allocation; re-filled after clear()); oracle = independent native-endian concatenation; vectors run in sub-processes (abort = observation), the small sweep is repeated under valgrind memcheck and under miri (which also checks allocation layouts on free); distinct = distinct values",
         "samples": [{"u16": "0xff00 -> [00, ff]"}, {"Vec<u16>": "[0x00ff, 0xff00, 0xffff]"}, {"Vec<u32>": "[]"}, {"String": "aé\u{10348}"}, {"sha_keys": "IndexMap<Vec<u32>,f64> in all 24 insertion orders"}],
         "exhaustive": false,
         "parts": parts,
